@@ -35,6 +35,12 @@ def interval_st(maxv):
 def big_axis(draw, count):
     lim = 2 ** 31 - 1
     step = draw(st.one_of(st.sampled_from([1, -1, 2, -3, 5, 100, -1000]), st.integers(-10 ** 6, 10 ** 6).filter(lambda v: v != 0)))
+    if draw(st.integers(0, 7)) == 0 and count >= 3:
+        # an axis spanning more than 2^31 although every label and the increment fit an int32
+        step = draw(st.integers(2 ** 30 // (count - 1), min(lim, (2 ** 32 - 2) // (count - 1)))) * draw(st.sampled_from([1, -1]))
+        span = abs(step) * (count - 1)
+        lo = draw(st.integers(-lim, lim - span))
+        return [lo if step > 0 else lo + span, step]
     room = lim - abs(step) * count
     start = draw(st.one_of(st.integers(-50, 5000), st.integers(-room, room), st.sampled_from([-room, room, 0, -1])))
     return [start, step]
